@@ -190,11 +190,15 @@ func checkGenKey(c *Case, v *Verdict) {
 	}
 	pub, priv := out.b, out.b2
 	if op.NilRd && dev.Calls == 0 {
-		// The implementation reached an entropy source other than
-		// crypto/rand.Reader: nothing to compare the bytes with; coherence only.
+		// "If rand is nil, crypto/rand.Reader will be used": the reader that
+		// variable holds when the call is made, which in this process is the
+		// simulated device. A key that came from anywhere else (the value the
+		// variable had at package initialisation, say) is not the key of the
+		// stream the caller's process provides.
 		v.probe("nil-reader-bypassed-rand.Reader")
 		if out.err == nil {
-			coherent(v, pub, priv, act)
+			v.fail("genkey-nil-reader-not-rand.Reader", "32 bytes read from crypto/rand.Reader", act,
+				"GenerateKey(nil) returned a key without reading crypto/rand.Reader (as it is at the time of the call)")
 		}
 		return
 	}
